@@ -353,11 +353,106 @@ pub fn run_front(ctx: &Ctx, src: &str) -> (Front, Vec<Diag>) {
     }
 }
 
-pub struct FrontObs {
-    pub lex_spans: Vec<(usize, usize)>,
-    pub diags: Vec<Diag>,
-    pub label_spans: Vec<(usize, usize)>,
-    pub has_error: bool,
-    pub rendered_len: usize,
-    pub panic: Option<String>,
+/// What C07 checks of the front end on one text. Err = (class, detail).
+#[derive(Default, Debug)]
+pub struct FrontStats {
+    pub tokens: usize,
+    pub diagnostics: usize,
+    pub errors: usize,
+    pub parsed_clean: bool,
+    pub rendered_bytes: usize,
+}
+
+fn span_ok(src: &str, s: usize, e: usize) -> Option<&'static str> {
+    if s > e {
+        return Some("span-start-after-end");
+    }
+    if e > src.len() {
+        return Some("span-beyond-text");
+    }
+    if !src.is_char_boundary(s) || !src.is_char_boundary(e) {
+        return Some("span-off-char-boundary");
+    }
+    None
+}
+
+fn check_diags(src: &str, d: &Diagnostics<'_>, stage: &str) -> Result<(), (String, String)> {
+    for x in &d.diagnostics {
+        if let Some(w) = span_ok(src, x.span.start, x.span.end) {
+            return Err((format!("diagnostic-{w}"), format!("{stage}: {} span {}..{} len {}", x.message, x.span.start, x.span.end, src.len())));
+        }
+        for l in &x.labels {
+            if let Some(w) = span_ok(src, l.span.start, l.span.end) {
+                return Err((format!("label-{w}"), format!("{stage}: {} label span {}..{} len {}", x.message, l.span.start, l.span.end, src.len())));
+            }
+        }
+    }
+    Ok(())
+}
+
+/// Lexer on its own, parser, resolver (only when the parse is clean, as the CLI does), and
+/// rendering of whatever diagnostics set results.
+pub fn front_total(ctx: &Ctx, src: &str) -> Result<FrontStats, (String, String)> {
+    ctx.reset();
+    let arena = &ctx.main;
+    let mut st = FrontStats::default();
+    let r = catch_unwind(AssertUnwindSafe(|| -> Result<(), (String, String)> {
+        // 1. the lexer alone
+        {
+            let mut lexer = Lexer::new(src, arena);
+            let mut prev_end = 0usize;
+            let mut n = 0usize;
+            for tok in &mut lexer {
+                n += 1;
+                if n > src.len() + 2 {
+                    return Err(("lexer-no-progress".into(), format!("more than {} tokens", src.len() + 2)));
+                }
+                let (s, e) = (tok.span.start, tok.span.end);
+                if let Some(w) = span_ok(src, s, e) {
+                    return Err((format!("token-{w}"), format!("token {:?} span {s}..{e} len {}", tok.token, src.len())));
+                }
+                if s < prev_end {
+                    return Err(("token-spans-not-monotone".into(), format!("token {:?} span {s}..{e} after end {prev_end}", tok.token)));
+                }
+                prev_end = e;
+            }
+            st.tokens = n;
+            check_diags(src, &lexer.errors, "lexical")?;
+        }
+        // 2. parser (+ lexer diagnostics merged)
+        let lexer = Lexer::new(src, arena);
+        let mut parser = Parser::new(lexer, arena);
+        let (root, perr) = parser.parse_program();
+        check_diags(src, perr, "syntax")?;
+        st.diagnostics = perr.diagnostics.len();
+        st.errors = perr.diagnostics.len();
+        if !perr.diagnostics.is_empty() {
+            let out = perr.render_ansi(src, "f.ns");
+            st.rendered_bytes = out.len();
+            if std::str::from_utf8(out.as_bytes()).is_err() {
+                return Err(("render-invalid-utf8".into(), "syntax".into()));
+            }
+            return Ok(());
+        }
+        st.parsed_clean = true;
+        // 3. resolver
+        let mut resolver = Resolver::new(arena);
+        resolver.resolve(root);
+        check_diags(src, &resolver.errors, "semantic")?;
+        st.diagnostics = resolver.errors.diagnostics.len();
+        st.errors = resolver.errors.diagnostics.iter().filter(|d| d.severity == Severity::Error).count();
+        if !resolver.errors.diagnostics.is_empty() {
+            let out = resolver.errors.render_ansi(src, "f.ns");
+            st.rendered_bytes = out.len();
+            if std::str::from_utf8(out.as_bytes()).is_err() {
+                return Err(("render-invalid-utf8".into(), "semantic".into()));
+            }
+        }
+        Ok(())
+    }));
+    match r {
+        Ok(Ok(())) => Ok(st),
+        Ok(Err(e)) => Err(e),
+        Err(_) => Err((format!("front-end-panic: {}", take_panic()), String::new())),
+    }
 }
